@@ -1,5 +1,8 @@
 (* Extraction of the C19 model and of the executable specification.
-   ExtrOcamlBasic only: nat, N, Z, positive stay Coq datatypes. *)
+   ExtrOcamlBasic only: nat, N, Z, positive stay Coq datatypes.
+   vlib reads the logical names below to find the .v files this extraction depends on, so that
+   the driver is rebuilt when the model, the specification or the regenerated tables change:
+   Algo.C19.Model  Algo.C19.Spec  Algo.Gen.C19_Tables  *)
 Require Extraction.
 Require Import ExtrOcamlBasic.
 From Algo.C19 Require Import Model Spec.
